@@ -32,7 +32,9 @@ WRAP32 = [2 ** 32 - 1, 2 ** 32 - 2, 2 ** 32 - 5, 2 ** 32 - 40, 2 ** 32 - 300, 2 
 
 def _cfg_c01(r):
     # (a third of the runs also close channels and reuse their ids: "any number of channels" over time)
-    return D.Cfg(p_close=r.choice([0.0, 0.0, 0.05]), n_rel=r.randint(1, 4), n_pr=0, steps=r.choice([60, 90, 140]), p_drop=r.choice([0.05, 0.12, 0.25]),
+    # (and a third share the association with partially reliable channels: what those abandon must
+    #  not damage the reliable ones - reported here with the C01 clause names)
+    return D.Cfg(p_close=r.choice([0.0, 0.0, 0.05]), n_rel=r.randint(1, 4), n_pr=r.choice([0, 0, 1]), steps=r.choice([60, 90, 140]), p_drop=r.choice([0.05, 0.12, 0.25]),
                  p_dup=r.choice([0.0, 0.05, 0.12]), p_fire=0.05, p_app=0.3, max_msgs=r.choice([8, 14, 24]),
                  burst=r.choice([0, 0, 4]), origin_a=r.choice(D.ORIGINS), origin_b=r.choice(D.ORIGINS),
                  handshake_faults=r.random() < 0.2, unicode_labels=True)
@@ -114,6 +116,8 @@ def _random_batch(args):
         tr = D.random_ops(r, cfg)
         tr["focus"] = p["focus"]
         tr["meta"] = {"src": "random", "k": k}
+        if prop == "C01":
+            tr["pr"] = False      # name damage to reliable channels C01.* even when PR channels exist
         if prop == "C17":
             ref = tr["events"]
             tr["ref"] = ref
